@@ -595,3 +595,13 @@ package gorm
 //@   match callparam fc
 //@   in gorm.(*DB).FindInBatches
 //@   assume-after callback-leaves-the-query-handle-alone: local(result).RowsAffected == old(local(result).RowsAffected) && local(result).Error == old(local(result).Error)
+
+//@ # ---------- C06: a *DB passed as a condition is not changed (finding F7) ----------
+//@ # executeScopes empties Statement.scopes and lets the scope functions continue the chain; run on a reusable
+//@ # handle (clone > 0) it would write that handle's shared statement and lose what the scopes add (they return
+//@ # new instances). So it is only ever run on a chain in progress.
+//@ site scopes-run-on-a-chain-in-progress
+//@   match call gorm.(*DB).executeScopes
+//@   in gorm.(*Statement).BuildCondition
+//@   min-sites 1
+//@   assert not-on-a-reusable-handle: arg0.clone <= 0 [C06]
